@@ -85,6 +85,8 @@ def make(R):
             units.append(R.choice([b'', b' ']) + h)
         msgs.append(b';'.join(units) + R.choice([b'\n', b'\r\n']))
     ins = [('I', m) for m in msgs]
+    if R.random() < 0.15:
+        ins = [('L', m) for m in msgs]      # the public SCPI_Parse called directly, one message per call
     if R.random() < 0.25:
         # the last message arrives without its terminator and is executed by a zero-length input call
         ins = ins[:-1] + [('I', msgs[-1].rstrip(b'\r\n')), ('I', b'')]
